@@ -37,8 +37,8 @@ FLOORS = {
     "as_and_block": 0.02,
     "rich_ext_value": 0.10,
     "tricky_ident": 0.05,
-    "service": 0.10,
-    "device": 0.10,
+    "service": 0.06,
+    "device": 0.06,
 }
 
 WS = [" ", "\n", "\t", "  ", " \n", "\n\n\t", " \t "]
